@@ -1012,12 +1012,14 @@ where
             JSXElementName::JSXMemberExpr(JSXMemberExpr { prop, .. }) => &*prop.sym,
             JSXElementName::JSXNamespacedName(JSXNamespacedName { name, .. }) => &*name.sym,
         };
-        let should_transformed_to_slots = !self
-            .vue_imports
-            .get(FRAGMENT)
-            .map(|ident| &*ident.sym == name)
-            .unwrap_or_default()
-            && name != KEEP_ALIVE;
+        // `Fragment`, `_Fragment`, `_Fragment1`, ... (same rule as the official plugin); this
+        // must not depend on whether a fragment has been transformed before
+        let is_fragment = name
+            .strip_prefix('_')
+            .unwrap_or(name)
+            .strip_prefix(FRAGMENT)
+            .is_some_and(|rest| rest.bytes().all(|b| b.is_ascii_digit()));
+        let should_transformed_to_slots = !is_fragment && name != KEEP_ALIVE;
 
         if matches!(element_name, JSXElementName::JSXMemberExpr(..)) {
             should_transformed_to_slots
